@@ -4,7 +4,7 @@ import ast
 from sa.loader import AnalysisError, norm, walk_local
 from sa.cfg import cfg_of
 from sa.callgraph import bind_args
-from .common import analysis, names_in, resolve_local, value_sources
+from .common import analysis, names_in, resolve_local, value_sources, assigned_values
 
 PROP = "C12"
 TECHNIQUE = "def-use provenance per public entry point (schema reaching a worker comes from parse_schema with the very, shared, name table handed to the worker); CFG dominance of the early-return copy of the embedded name table; data-dependence of the header schema on the name table filled by the parse; who-may-drop discipline for the reader schema"
@@ -153,30 +153,69 @@ def run(ctx):
         ctx.check("C12.R3", "the header text depends on the name table filled by the parse (separately parsed definitions reach the file)", ok and guards_ok, gw.where(dumps[0]), f"GenericWriter.__init__: json.dumps({var}) with {[norm(d)[:60] for d in defs]}", "the header is the caller's schema minus markers only: types parsed separately against a shared dictionary are named but not defined, and the file cannot be read on its own")
         strip = [n for n in walk_local(gw.node) if isinstance(n, ast.DictComp) and "'__fastavro_parsed'" in norm(n) and "'__named_schemas'" in norm(n)]
         ctx.check("C12.R3", "both parse markers are stripped from the header schema (dict and list forms)", len(strip) >= 2, gw.where(), f"GenericWriter.__init__: {len(strip)} marker-stripping comprehensions", "parse markers leak into the file header")
-    helper = p.maybe_func("_write_py:_inline_definitions")
-    if helper is None:
-        ctx.unrecognised("C12.R3", "header closure helper", gw.where(), "_inline_definitions not found (closure implemented differently)")
-    else:
-        rec_calls = [n for n in walk_local(helper.node) if isinstance(n, ast.Call) and isinstance(n.func, ast.Name) and n.func.id == helper.name]
-        tblp = helper.pos_params[3] if len(helper.pos_params) > 3 else "named_schemas"
-        from_table = [n for n in rec_calls if n.args and f"{tblp}[" in norm(resolve_local(helper.node, n.args[0]))]
-        ctx.check("C12.R3", "a definition taken from the name table is itself processed (references inside it are inlined too)", bool(from_table), helper.where(), "_inline_definitions: definition from named_schemas returned without recursion", "a chain Parent -> Child -> Grandchild of separately parsed pieces leaves 'Grandchild' undefined in the header")
-        # the walk is given the complete name table (a definition taken from it may refer to further ones)
-        for g in p.all_functions():
-            for c in walk_local(g.node):
-                if not (isinstance(c, ast.Call) and isinstance(c.func, ast.Name) and c.func.id == helper.name and p.resolve_func(g.mod, c.func) is helper):
+    # the walk that builds the closure, by role: the functions through which the name table flows, starting from the
+    # call in _self_contained_schema that receives it (one recursive function, or a group of mutually recursive ones)
+    sc = p.maybe_func("_write_py:_self_contained_schema")
+    table_param = {}
+    entry_calls = []
+    if sc is not None and len(sc.pos_params) >= 2:
+        stbl = sc.pos_params[1]
+        for c in walk_local(sc.node):
+            if isinstance(c, ast.Call) and isinstance(c.func, ast.Name):
+                g = p.resolve_func(sc.mod, c.func)
+                if g is None or g.cls is not None:
                     continue
-                targ = c.args[3] if len(c.args) > 3 else next((k.value for k in c.keywords if k.arg == tblp), None)
-                if g is helper:
-                    good = isinstance(targ, ast.Name) and targ.id == tblp and not any(isinstance(x, ast.Name) and x.id == tblp and isinstance(x.ctx, ast.Store) for x in walk_local(helper.node))
-                elif isinstance(targ, ast.Name):
-                    srcs = value_sources(a, g, targ)
-                    good = bool(srcs) and all(k == "param" for k, _ in srcs)
-                else:
-                    good = targ is not None and norm(targ) == "self._named_schemas"
-                ctx.check("C12.R3", f"{g.qualname}: the definitions walk receives the complete name table", good, g.where(c), f"{g.qualname}: {norm(c)[:100]}", "a definition inlined from the table can itself refer to separately parsed types: with a restricted table those stay undefined in the header")
-        ok = any(isinstance(n, ast.If) and "in defined" in norm(n.test) for n in walk_local(helper.node)) and any(norm(n) == "defined.add(fullname)" for n in walk_local(helper.node) if isinstance(n, ast.Expr))
-        ctx.check("C12.R3", "each name is defined once in the header (set of names defined so far)", ok, helper.where(), "_inline_definitions: defined-so-far bookkeeping", "a type reachable twice would be defined twice (redefined named type on read)")
+                b = bind_args(g, c)
+                returned = any(isinstance(x, ast.Return) and x.value is c for x in walk_local(sc.node))
+                for pn, arg in b.items():
+                    is_tbl = isinstance(arg, ast.Name) and arg.id == stbl
+                    # a local computed from the table stands in the table's role (a restriction of it: reported below)
+                    derived = isinstance(arg, ast.Name) and arg.id != stbl and any(stbl in names_in(v) for v in assigned_values(sc.node, arg.id))
+                    if (is_tbl or derived) and returned and g.id not in table_param:
+                        table_param[g.id] = (g, pn)
+                        entry_calls.append((sc, c, arg))
+    work = [g for g, _ in table_param.values()]
+    while work:
+        f = work.pop()
+        tp = table_param[f.id][1]
+        for c in ast.walk(f.node):
+            if isinstance(c, ast.Call) and isinstance(c.func, ast.Name):
+                g = p.resolve_func(f.mod, c.func)
+                if g is None or g.cls is not None:
+                    continue
+                for pn, arg in bind_args(g, c).items():
+                    if isinstance(arg, ast.Name) and arg.id == tp and g.id not in table_param:
+                        table_param[g.id] = (g, pn)
+                        work.append(g)
+    group = [g for g, _ in table_param.values()]
+    if not group:
+        ctx.unrecognised("C12.R3", "header closure helper", gw.where(), "the walk that receives the name table from _self_contained_schema was not found (closure implemented differently)")
+    else:
+        names = ", ".join(sorted(g.name for g in group))
+        from_table = False
+        for f in group:
+            tp = table_param[f.id][1]
+            for c in ast.walk(f.node):
+                if isinstance(c, ast.Call) and isinstance(c.func, ast.Name) and getattr(p.resolve_func(f.mod, c.func), "id", None) in table_param:
+                    if any(f"{tp}[" in norm(resolve_local(f.node, x)) for x in c.args):
+                        from_table = True
+        ctx.check("C12.R3", "a definition taken from the name table is itself processed (references inside it are inlined too)", from_table, group[0].where(), f"{names}: definition from the name table returned without recursion", "a chain Parent -> Child -> Grandchild of separately parsed pieces leaves 'Grandchild' undefined in the header")
+        # the walk is given the complete name table at every step (a definition taken from it may refer to further ones)
+        for f in [sc] + group:
+            tp = sc.pos_params[1] if f is sc else table_param[f.id][1]
+            for c in ast.walk(f.node):
+                if not (isinstance(c, ast.Call) and isinstance(c.func, ast.Name)):
+                    continue
+                g = p.resolve_func(f.mod, c.func)
+                if g is None or g.id not in table_param:
+                    continue
+                targ = bind_args(g, c).get(table_param[g.id][1])
+                good = isinstance(targ, ast.Name) and targ.id == tp and not any(isinstance(x, ast.Name) and x.id == tp and isinstance(x.ctx, ast.Store) for x in walk_local(f.node))
+                ctx.check("C12.R3", f"{f.qualname}: the definitions walk receives the complete name table", good, f.where(c), f"{f.qualname}: {norm(c)[:100]}", "a definition inlined from the table can itself refer to separately parsed types: with a restricted table those stay undefined in the header")
+        adds = {norm(n.value.func.value) for f in group for n in ast.walk(f.node) if isinstance(n, ast.Expr) and isinstance(n.value, ast.Call) and isinstance(n.value.func, ast.Attribute) and n.value.func.attr == "add" and isinstance(n.value.func.value, ast.Name)}
+        tests = {norm(t.comparators[0]) for f in group for n in ast.walk(f.node) if isinstance(n, (ast.If, ast.IfExp)) for t in ast.walk(n.test) if isinstance(t, ast.Compare) and len(t.ops) == 1 and isinstance(t.ops[0], (ast.In, ast.NotIn))}
+        ok = bool(adds & tests)
+        ctx.check("C12.R3", "each name is defined once in the header (set of names defined so far)", ok, group[0].where(), f"{names}: defined-so-far bookkeeping", "a type reachable twice would be defined twice (redefined named type on read)")
     _r4(ctx, a)
 
 
